@@ -268,10 +268,7 @@ func ruleSpecialText(c *Ctx) {
 					for _, space := range []bool{false, true} {
 						in := newInterp(p)
 						decIntrinsics(in, false)
-						last := ""
-						in.onAssign = func(in *interp, st *state, l ast.Expr, v AV) {}
-						// the chosen text: the last package-level []byte assigned to a local
-						var chosen types.Object
+						// package-level byte slices evaluate to their text (E2.text checks the texts themselves)
 						in.evalLeaf = func(in *interp, st *state, e ast.Expr) (AV, bool) {
 							if id, ok := e.(*ast.Ident); ok {
 								if o, ok := p.Info.Uses[id].(*types.Var); ok && o.Parent() == p.Pkg.Types.Scope() {
@@ -284,7 +281,6 @@ func ruleSpecialText(c *Ctx) {
 							}
 							return nil, false
 						}
-						_ = chosen
 						st := newState()
 						recv := recvObj(p, fd)
 						st.vars[recv] = operand(0, cls{class, neg})
@@ -293,21 +289,11 @@ func ruleSpecialText(c *Ctx) {
 						st.vars[ps[3]] = avBool{space}
 						st.vars[ps[4]] = avBool{false}
 						in.curFn = append(in.curFn, fd)
-						// run the statements up to (excluding) the first one that reads the width
+						// the statements that select the text: everything before the width is first read
+						widthKey := fmt.Sprintf("%s@%d", ps[1].Name(), ps[1].Pos())
 						var sel []ast.Stmt
 						for _, s := range fd.Body.List {
-							if p.usesVar(s, p.exprKey(&ast.Ident{Name: "width"})) {
-								break
-							}
-							sel = append(sel, s)
-						}
-						widthKey := ""
-						if wo := ps[1]; wo != nil {
-							widthKey = fmt.Sprintf("%s@%d", wo.Name(), wo.Pos())
-						}
-						sel = nil
-						for _, s := range fd.Body.List {
-							if widthKey != "" && p.usesVar(s, widthKey) {
+							if p.usesVar(s, widthKey) {
 								break
 							}
 							sel = append(sel, s)
@@ -330,9 +316,8 @@ func ruleSpecialText(c *Ctx) {
 								found++
 							}
 						}
-						last = got
-						if found != 1 || last != want(class, neg, plus, space) {
-							bad = fmt.Sprintf("%s with sign bit %v, flag '+' %v, flag ' ' %v selects %q; package fmt prints a float of that class as %q", map[string]string{"nan": "a NaN", "inf": "an infinity"}[class], neg, plus, space, last, want(class, neg, plus, space))
+						if found != 1 || got != want(class, neg, plus, space) {
+							bad = fmt.Sprintf("%s with sign bit %v, flag '+' %v, flag ' ' %v selects %q; package fmt prints a float of that class as %q", map[string]string{"nan": "a NaN", "inf": "an infinity"}[class], neg, plus, space, got, want(class, neg, plus, space))
 							break
 						}
 					}
